@@ -65,7 +65,8 @@ def plan(tier, prop):
                             "bmp_board_specific_connection", "scp_failure",
                             "context_object_reused",
                             "context_object_reentered_while_active",
-                            "bmp_board_iterable", "discovery_under_faults"],
+                            "bmp_board_iterable", "discovery_under_faults",
+                            "bmp_led_iterable", "one_shot_iterable"],
         "knob_ranges": {"boards": [1, 3, 6, 12], "root_offset": "0-11 each",
                         "eth_down": "0-30 % of boards",
                         "depth": "0-4", "items": "1-12"},
@@ -499,7 +500,7 @@ class CtxEngine(object):
                  "read_fpga_reg", "write_fpga_reg", "read_adc"]
         name = names[t.draw(len(names))]
         fixed = {"get_software_version": [], "set_power": [bool(t.draw(2))],
-                 "set_led": [t.draw(8), bool(t.draw(2))],
+                 "set_led": [t.draw(8), [True, False, None][t.draw(3)]],
                  "read_fpga_reg": [t.draw(3), 4 * t.draw(10)],
                  "write_fpga_reg": [t.draw(3), 4 * t.draw(10), t.draw(1000)],
                  "read_adc": []}[name]
@@ -515,6 +516,13 @@ class CtxEngine(object):
                 bs.reverse()
             vals["board"] = bs
             w.probe("bmp_board_iterable")
+        leds = None
+        if name == "set_led":
+            leds = [fixed[0]]
+            if t.draw(3) == 0:
+                leds = sorted({t.draw(8) for _ in range(1 + t.draw(3))})
+                fixed[0] = self.iterable_shape(leds)
+                w.probe("bmp_led_iterable")
         resolved, kw, pos = {}, {}, []
         missing = None
         positional_ok = name != "set_led"
@@ -524,12 +532,20 @@ class CtxEngine(object):
                 mode = 1
             if mode != 2:
                 positional_ok = False
-            if mode == 2:
-                pos.append(vals[nm])
+            if mode in (1, 2):
+                given = vals[nm]
+                if isinstance(given, list):
+                    # any iterable will do when it is given in the call
+                    # itself (a one-shot iterable kept in a context would be
+                    # used up by the first command)
+                    given = self.iterable_shape(given)
+                    if isinstance(given, (set, frozenset)):
+                        vals[nm] = list(given)
                 resolved[nm] = vals[nm]
-            elif mode == 1:
-                kw[nm] = vals[nm]
-                resolved[nm] = vals[nm]
+                if mode == 2:
+                    pos.append(given)
+                else:
+                    kw[nm] = given
             else:
                 found, v = self.ctx_value(stack, nm)
                 if found:
@@ -540,7 +556,7 @@ class CtxEngine(object):
             kw["post_power_on_delay"] = 0.0
         label = "bmp.%s(%s)" % (name, ", ".join(
             [_short(v) for v in fixed + pos] +
-            ["%s=%s" % kv for kv in sorted(kw.items())]))
+            ["%s=%s" % (k, _short(v)) for k, v in sorted(kw.items())]))
         if missing is None and (resolved["cabinet"], resolved["frame"]) not \
                 in self.bmp_hosts:
             return
@@ -590,6 +606,14 @@ class CtxEngine(object):
                     w.violate("CONN", "%s sent to %s, expected %s"
                               % (label, peer_ip, want_ip),
                               kind="wrong-connection", method="bmp." + name)
+                if name == "set_led":
+                    act = {True: 3, False: 2, None: 1}[fixed[1]]
+                    want1 = sum(act << (2 * l) for l in leds)
+                    if d.arg(0) != want1:
+                        w.violate("WIRE", "%s: LED word %#x, expected %#x "
+                                  "(leds %r)" % (label, d.arg(0) or 0, want1,
+                                                 leds), kind="wrong-led",
+                                  method="bmp." + name)
                 if name == "set_led" and d.arg(1) != mask:
                     w.violate("WIRE", "%s: board mask %#x, the caller named "
                               "boards %r" % (label, d.arg(1) or 0, boards),
@@ -660,6 +684,23 @@ class CtxEngine(object):
             if t.draw(2):
                 args["board"] = t.draw(24)
         return args
+
+    def iterable_shape(self, xs):
+        """The values xs as the caller might hand them over."""
+        k = self.t.weighted([4, 2, 2, 2, 1, 1])
+        if k == 1:
+            return tuple(xs)
+        if k == 2:
+            self.w.probe("one_shot_iterable")
+            return (x for x in list(xs))
+        if k == 3:
+            self.w.probe("one_shot_iterable")
+            return iter(list(xs))
+        if k == 4:
+            return frozenset(xs)
+        if k == 5:
+            return range(xs[0], xs[0] + 1) if len(xs) == 1 else list(xs)
+        return list(xs)
 
     def check_ctx(self, which, stack):
         obj = self.c.mc if which == "mc" else self.bc
@@ -893,6 +934,8 @@ class CtxEngine(object):
 
 
 def _short(v):
+    if hasattr(v, "__next__"):
+        return "<one-shot iterable>"
     s = repr(v)
     return s if len(s) < 30 else s[:27] + "..."
 
